@@ -2,7 +2,7 @@
    it reads back as (soundness of the objective); the per-task capacity row charges together
    tasks that never coexist (F11-ii, general form and witness), a running task is charged its full
    runtime (F11-iii), and a task whose deadline lies before its earliest start makes the whole
-   system unsatisfiable (ILP-iv): completeness refuted three times. *)
+   system unsatisfiable (F22): completeness refuted three times. *)
 From Coq Require Import ZArith Bool List Lia ZifyBool.
 Import ListNotations.
 From Verif Require Import Model.Val Gen.Src_Ilp Model.IlpModel Proofs.IlpP Proofs.IlpP11 Proofs.IlpP10.
@@ -131,6 +131,50 @@ Proof.
   unfold f in Hm, Hrow. rewrite O12 in Hrow. rewrite O13 in Hm. lia.
 Qed.
 
+(* the same across workers: the row of t1 FOR WORKER w is written even when t1 sits on another worker (or nowhere),
+   and then charges together two tasks of w that merely both overlap t1 in time *)
+Theorem cross_worker_overcharge : forall I a, sat (gen_ilp I) a -> nodup_ids I -> rt_nonneg I -> req_nonneg I ->
+  forall t1 t2 t3 w1 w ks1 ks2 ks3 tau2 tau3 rq,
+  In t1 (i_tasks I) -> In t2 (i_tasks I) -> In t3 (i_tasks I) -> is_running t1 = false ->
+  t_id t1 <> t_id t2 -> t_id t1 <> t_id t3 -> t_id t2 <> t_id t3 ->
+  In w1 (wenum I) -> In w (wenum I) -> In rq (w_res (snd w)) -> In ks1 (senum t1) -> In ks2 (senum t2) -> In ks3 (senum t3) ->
+  dependent I t1 t2 = false -> dependent I t1 t3 = false ->
+  active_a I a t1 (w1, ks1) tau2 = true -> active_a I a t2 (w, ks2) tau2 = true ->
+  active_a I a t1 (w1, ks1) tau3 = true -> active_a I a t3 (w, ks3) tau3 = true ->
+  req (snd ks2) (fst rq) + req (snd ks3) (fst rq) <= snd rq.
+Proof.
+  intros I a Hsat Hn Hrt Hreq t1 t2 t3 w1 w ks1 ks2 ks3 tau2 tau3 rq H1 H2 H3 R1 N12 N13 N23 Hw1 Hw Hrq K1 K2 K3 D12 D13 A12 A2 A13 A3.
+  assert (S1 : In (w1, ks1) (pairs I t1)) by (apply in_prod; assumption).
+  assert (S2 : In (w, ks2) (pairs I t2)) by (apply in_prod; assumption).
+  assert (S3 : In (w, ks3) (pairs I t3)) by (apply in_prod; assumption).
+  pose proof (independent_overlap_one I a Hsat Hrt t1 t2 _ _ tau2 H1 H2 N12 D12 S1 S2 A12 A2) as O12.
+  pose proof (independent_overlap_one I a Hsat Hrt t1 t3 _ _ tau3 H1 H3 N13 D13 S1 S3 A13 A3) as O13.
+  assert (On2 : on a t2 (w, ks2) = 1) by (unfold active_a in A2; lia).
+  assert (On3 : on a t3 (w, ks3) = 1) by (unfold active_a in A3; lia).
+  assert (Hoff : off_worker t1 w = false) by (unfold off_worker; rewrite R1; reflexivity).
+  pose proof (cap_row_holds I a Hsat t1 w rq H1 Hw Hrq Hoff) as Hrow.
+  pose proof (load_ge_slot I a Hsat Hreq t2 w ks2 (fst rq) H2 Hw K2 On2) as L2.
+  pose proof (load_ge_slot I a Hsat Hreq t3 w ks3 (fst rq) H3 Hw K3 On3) as L3.
+  assert (L1 : 0 <= load a t1 w (fst rq)).
+  { unfold load. apply sum_list_nonneg. intros ks Hks. pose proof (req_ge0 I Hreq t1 ks (fst rq) H1 Hks).
+    pose proof (on_binary I a Hsat t1 (w, ks) H1 (in_prod _ _ _ _ Hw Hks)). nia. }
+  set (f := fun t2 => a (VOverlap (t_id t1) (t_id t2)) * load a t2 w (fst rq)) in *.
+  assert (Hf0 : forall t, In t (others I t1) -> 0 <= f t).
+  { intros t Ht. unfold others in Ht. apply filter_In in Ht. destruct Ht as [Ht Hne]. unfold f.
+    pose proof (overlap_binary I a Hsat t1 t (in_opairs I t1 t H1 Ht ltac:(lia))).
+    assert (0 <= load a t w (fst rq)).
+    { unfold load. apply sum_list_nonneg. intros ks Hks. pose proof (req_ge0 I Hreq t ks (fst rq) Ht Hks).
+      pose proof (on_binary I a Hsat t (w, ks) Ht (in_prod _ _ _ _ Hw Hks)). nia. }
+    nia. }
+  assert (I2 : In t2 (others I t1)) by (unfold others; apply filter_In; split; [exact H2|lia]).
+  assert (I3 : In t3 (others I t1)) by (unfold others; apply filter_In; split; [exact H3|lia]).
+  assert (Hnd : NoDup (map t_id (others I t1))) by (unfold others; apply NoDup_map_filter; exact Hn).
+  rewrite (sum_split_at f (others I t1) t2 Hnd I2) in Hrow.
+  assert (I3' : In t3 (filter (fun t => negb (t_id t2 =? t_id t)) (others I t1))) by (apply filter_In; split; [exact I3|lia]).
+  pose proof (sum_list_member_le _ f _ t3 (fun t Ht => Hf0 t (proj1 (proj1 (filter_In _ _ _) Ht))) I3') as Hm.
+  unfold f in Hm, Hrow. rewrite O12 in Hrow. rewrite O13 in Hm. lia.
+Qed.
+
 (* ------------------------------------------------------------------ witnesses *)
 Definition mk1 (id g dl rt : Z) : task := mkTask id g TReleased 0 dl [mkStrat 1 rt [(0, 1)]] None rt.
 (* F11-ii: one worker with 2 CPUs, T1 (10us, deadline 11), T2 (4, 5), T3 (4, 11), now = 0 *)
@@ -234,7 +278,7 @@ Proof.
   cbn in C. lia.
 Qed.
 
-(* ILP-iv: a task whose deadline lies before now + 1 makes the whole system unsatisfiable, so nothing is
+(* F22: a task whose deadline lies before now + 1 makes the whole system unsatisfiable, so nothing is
    placed in that invocation although the other task fits *)
 Definition ex_dead : instance :=
   mkInst 3 [mkWorker 1 [(0, 2)]] [mk1 1 0 30 5; mk1 2 1 3 4] 2%nat
